@@ -87,6 +87,19 @@ CHECKS["C20"] = dict(cat="model_checking", ref="4 C20", engine="tlc-case-enumera
          "abstract cases to bytes in harness/cmd/c20.",
     technique="TLA+ transcription of the parsers (Codec.tla) + TLC case enumeration + replay into the real parsers + TLC validation of the observations")
 
+CHECKS["C10"] = dict(cat="fault_enumeration", ref="4 C10", engine="fault-enumeration+tlc",
+    text="Every SQL statement (reads and writes, on every connection) and every upstream request of the enumerated blocks is failed once with an injected "
+         "transient error; the real daemon must retry and reach exactly the fault-free ledger; each experiment is replayed by TLC through Sync.tla "
+         "(FailInBlock / FailInsertSynced / FailCommit; invariants in every state); failing experiments are classified by the call site of the failed operation.",
+    note="Faults are transient (once) and injected at the database/sql driver boundary and at the fake factomd; a daemon that exits is restarted once. Trusted: "
+         "TLC, sqlwrap, fake factomd, reference = fault-free run of the same build.",
+    technique="TLA+ spec of the sync loop with fault actions (Sync.tla) + TLC exhaustive + single-fault enumeration replayed through the spec")
+CHECKS["C01"] = dict(cat="model_checking", ref="4 C01",
+    text="MC_Determinism (TLC) exhausts all stake vectors with independent tie orders on two replicas (Agree holds with the address tie-break, counterexample "
+         "without); chains biased to exact ties (capped staking payout with equal largest stakes, tied PEG requests) and general chains are replayed by K "
+         "independent daemon processes (fresh hash seeds, different GOMAXPROCS) and all ledger tables compared; one replica per chain is validated by TLC.",
+    technique="TLA+ two-replica model (MC_Determinism) + TLC exhaustive + K-replica replay of real chains with dump comparison")
+
 PENDING = {}
 
 def main():
